@@ -38,9 +38,14 @@ CLAIMED = {
         technique="deterministic simulation: heap-content seam (fill patterns incl. stale numpoly bytes, red zones) with numpy casts/promotion on plain arrays as the oracle",
         text="All 14 numeric dtypes and all ordered pairs through constructors/casts (polynomial/aspolynomial/polynomial_from_attributes incl. mixed-dtype coefficient lists/dict/variable/symbols/astype), +,-,*,**, indexing, shape functions, creation functions and results with zero surviving terms; every step is executed under several contents of fresh memory (zero, 0xA5, 0xFF, seeded bytes, stale bytes of an earlier numpoly buffer) with canary zones around every polynomial buffer. The result must be byte-identical across fills (nothing unwritten is returned) and equal the dtype and values numpy's own cast/promotion gives.",
         note="numpoly.ndpoly(...) is the documented raw allocator (exempt). Buffers numpy allocates internally cannot be poisoned. Python-scalar operands: values only (a scalar is not a dtype). Runs execute in forked children; a child killed by a signal is recorded as undecided(crashed)."),
+
+    "C13": dict(level="fault_enumeration", ref="DESIGN.md §4 C13",
+        technique="deterministic simulation: simulated file objects/paths/locale with I/O fault injection at every write, read-side call and close; round-trip oracle on canonical forms",
+        text="Pickle (protocols 0-5, via dumps, simulated streams, out-of-band buffers), copy/deepcopy/.copy() and savetxt->loadtxt (fmt/delimiter/header/comments, both spellings) for 0-d, size-1, single-term, constant, multi-dimensional and transposed/sliced arrays, through text and bytes streams (with/without encoding attribute) and str/PathLike paths routed to simulated files under a simulated locale. Per save an OSError is injected at EVERY write index the fault-free run made and at close (a save that returns normally must load back); per load at every read-side call (the load must raise or return the right polynomial). Header-less files must load as the plain array numpy gives.",
+        note="Nothing is asserted about torn files. Save and load share one simulated locale. Only exceptions are injected (numpy ignores write()'s return value). bytes paths are not generated (numpy.savetxt rejects them). The FileSeam probes itself at every use (exit 2 if numpy moved the open() call sites)."),
 }
 
-PENDING = {k: "check under construction in this session; will be claimed (see DESIGN.md verdict table)" for k in ["C13","C15","C20"]}
+PENDING = {k: "check under construction in this session; will be claimed (see DESIGN.md verdict table)" for k in ["C15","C20"]}
 
 NOT_APPLICABLE = {
     "C01": "ring arithmetic is a pure function of the operands: no schedule, clock, fault, stream or global history in any clause; its one environment dependence (unwritten coefficients) is decided under C12",
